@@ -3,6 +3,8 @@ package main
 import (
 	"encoding/hex"
 	"encoding/json"
+	"strconv"
+	"strings"
 	"unicode/utf8"
 
 	"github.com/pandatix/go-cvss/verifsim/rt"
@@ -21,6 +23,10 @@ type Plan struct {
 	PoolDec   []int      `json:"pooldec,omitempty"`
 	Preempt   [][]int64  `json:"preempt,omitempty"`
 	MaxPoints int64      `json:"max_points,omitempty"`
+	// BudgetX multiplies the default step budget of the run (the budget only
+	// exists to end runs in which a library call never finishes; a run that
+	// exhausts it is re-examined with a much larger one before it is believed).
+	BudgetX int64 `json:"budget_x,omitempty"`
 	// Jitter shifts the race monitor's per-goroutine event trace (task i does
 	// Jitter*(i+1) private memory writes before its first operation). The
 	// monitor evicts access records pseudo-randomly by trace position, so a
@@ -95,6 +101,7 @@ type Op struct {
 	S  string  `json:"s,omitempty"`
 	S2 string  `json:"s2,omitempty"`
 	F  float64 `json:"f,omitempty"`
+	A  string  `json:"a,omitempty"` // extra: the cells passed for parameters of the version's object type, comma separated, in parameter order
 }
 
 type opJSON struct {
@@ -105,10 +112,11 @@ type opJSON struct {
 	S  BStr    `json:"s,omitempty"`
 	S2 BStr    `json:"s2,omitempty"`
 	F  float64 `json:"f,omitempty"`
+	A  string  `json:"a,omitempty"`
 }
 
 func (o Op) MarshalJSON() ([]byte, error) {
-	return json.Marshal(opJSON{o.K, o.V, o.C, o.D, BStr(o.S), BStr(o.S2), o.F})
+	return json.Marshal(opJSON{o.K, o.V, o.C, o.D, BStr(o.S), BStr(o.S2), o.F, o.A})
 }
 
 func (o *Op) UnmarshalJSON(data []byte) error {
@@ -116,8 +124,32 @@ func (o *Op) UnmarshalJSON(data []byte) error {
 	if err := json.Unmarshal(data, &j); err != nil {
 		return err
 	}
-	*o = Op{j.K, j.V, j.C, j.D, string(j.S), string(j.S2), j.F}
+	*o = Op{j.K, j.V, j.C, j.D, string(j.S), string(j.S2), j.F, j.A}
 	return nil
+}
+
+// argCells decodes Op.A.
+func (o Op) argCells() []int {
+	if o.A == "" {
+		return nil
+	}
+	var r []int
+	for _, f := range strings.Split(o.A, ",") {
+		n, err := strconv.Atoi(f)
+		if err != nil {
+			n = -1
+		}
+		r = append(r, n)
+	}
+	return r
+}
+
+func joinInts(a []int) string {
+	var p []string
+	for _, n := range a {
+		p = append(p, strconv.Itoa(n))
+	}
+	return strings.Join(p, ",")
 }
 
 // BStr is an arbitrary byte string that survives JSON: valid UTF-8 is written
@@ -157,6 +189,18 @@ func (p *Plan) simConfig(trace bool) rt.Config {
 	}
 	return rt.Config{Sched: p.Sched, PreSched: p.PreSched, PoolDec: pd, Preempt: p.Preempt, MaxPoints: p.MaxPoints, Trace: trace,
 		TickNs: p.TickNs, ClockJumps: p.ClockJumps, NumCPU: p.NumCPU, RandSeed: p.Seed | 1}
+}
+
+// argBytes: total size of the string arguments of the plan (long inputs and
+// batches legitimately cost many steps).
+func (p *Plan) argBytes() int64 {
+	var n int64
+	for _, t := range p.Tasks {
+		for _, op := range t {
+			n += int64(len(op.S) + len(op.S2))
+		}
+	}
+	return n
 }
 
 func (p *Plan) nOps() int {
